@@ -957,4 +957,14 @@ impl Session {
     pub async fn verif_handle_tracker_cmd(&mut self, cmd: TrackerCmd) {
         self.handle_tracker_cmd(cmd).await
     }
+
+    /// Next command sent by a tracker task, if any.
+    pub async fn verif_recv_tracker_cmd(&mut self) -> Option<TrackerCmd> {
+        self.tracker.rx_ch.recv().await
+    }
+
+    /// Is a tracker task handle currently held?
+    pub fn verif_tracker_job_held(&self) -> bool {
+        self.tracker.job.is_some()
+    }
 }
